@@ -155,7 +155,8 @@ def malformed(s, var, rnd, k):
             if q > 1:
                 pos = n - q + rnd.randrange(q - 1); c[pos] ^= 1 + rnd.randrange(255)
         elif mode == 4: c[-1] = q                           # random filler
-        else: c = bytearray(n); c[-1] = rnd.randrange(256)   # zeros + arbitrary last byte
+        else:                                                 # zeros + a count byte: 0, inside the block, just beyond the block, = input length, arbitrary
+            c = bytearray(n); c[-1] = [0, Bb, min(Bb + 1, 255), min(n, 255), rnd.randrange(256), max(Bb - 1, 0)][(k + t // 6) % 6]
         ev.append(run_remove(obj, bytes(c)))
     return dict(sch=sch, ev=ev, scen=dict(kind='malformed', scheme=s))
 
